@@ -141,3 +141,130 @@ def replay_flow_length(reg, c, model, clause):
 
 
 REG.contracts[(FL, 'Flow.unpack_nlri')].replay = replay_flow_length
+
+
+# ------------------------------------------------------------------------------------------------ decoding walk
+
+
+def _decoder(it, args, kwargs, fr, node):
+    vb = args[0]
+    o = VObj(None, {'isinstance!': lambda c: True, 'bytes!': vb}, 'value')
+    return o
+
+
+def _append_op(it, args, kwargs, fr, node):
+    """rules.setdefault(what, []).append(klass(operator, value)): one operator/value pair is delivered; the obligations
+    here are the RFC 8955 4.2.1.1 bit layout of what the loop body just read"""
+    ctx = it.ctx
+    L = fr.locs
+    byte, length, vb = L['byte'], L['length'], L['value_bytes']
+    lb = simp((to_z3(byte) / 16) % 4)
+    ctx.oblige('op:width', 'post', to_z3(length) == z3.If(lb == 0, 1, z3.If(lb == 1, 2, z3.If(lb == 2, 4, 8))), 'value width = 1 << length bits of the operator byte')
+    ctx.oblige('op:value-bytes', 'post', to_z3(vb.length()) == to_z3(length), 'the value is exactly `width` bytes')
+    ctx.oblige('op:eol', 'post', (to_z3(L['end']) != 0) == (to_z3(byte) >= 128), 'end-of-list = bit 7 of the operator byte')
+    ctx.oblige('op:operator', 'post', to_z3(L['operator']) == to_z3(byte) - (to_z3(byte) / 128) * 128 - lb * 16, 'AND and comparison bits delivered as sent')
+    # framing: the operator byte sits where the previous pair ended, its value bytes directly follow it in the SAME
+    # buffer, and what is left starts right after them
+    if vb.pieces and len(vb.pieces) == 1 and vb.pieces[0].kind == 'view':
+        p = vb.pieces[0]
+        ctx.oblige('op:position', 'post', to_z3(p.off) - 1 == to_z3(L['next_pos']), 'the operator byte is read where the previous pair ended')
+        ctx.oblige('op:byte', 'post', to_z3(byte) == z3.Select(p.arr(), to_z3(p.off) - 1), 'the operator byte is the byte before its value')
+        L['next_pos'] = simp(p.off + length)
+    else:
+        ctx.oblige('op:position', 'post', False, 'value bytes are not a window of the payload')
+    L['nops'] = simp(L['nops'] + 1)
+    return None
+
+
+def _klass_new(it, args, kwargs, fr, node):
+    return VObj(None, {'operations': args[0], 'value': args[1]}, 'op')
+
+
+def _po_result(it, cfr):
+    b = cfr.locs['bgp'].pieces[0]
+    k = it.ctx.fresh('consumed')
+    it.ctx.assume(z3.And(k >= 2, k <= to_z3(b.len)))
+    return VBytes([Piece('view', b.a, simp(b.off + k), simp(b.len - k))], cfr.locs['bgp'].kind)
+
+
+contract(
+    FL,
+    'Flow._parse_operations',
+    props=('C16', 'C03'),
+    params={'what': int_(3, 13), 'klass': obj(None), 'bgp': bytes_(0, 4095, 'memoryview'), 'rules': obj(None)},
+    ghost={'nops': const(0), 'next_pos': const(0)},
+    callees={
+        'klass.decoder': _decoder,
+        'issubclass': lambda it, a, k, fr, n: True,
+        'klass': _klass_new,
+        'rules.setdefault(what, []).append': _append_op,
+    },
+    lets={'bgp0': 'bgp'},
+    setup=lambda it, fr: fr.locs.__setitem__('next_pos', fr.locs['bgp'].pieces[0].off if fr.locs['bgp'].pieces else 0),
+    loops={
+        0: {
+            'subviews': {'bgp': 'bgp0'},
+            'inv': ['voff(bgp) + len(bgp) == voff(bgp0) + len(bgp0)', 'nops >= 0', 'next_pos == voff(bgp)', 'implies(not end, nops * 2 <= voff(bgp) - voff(bgp0))', 'implies(end, voff(bgp) - voff(bgp0) >= 2 and nops >= 1)'],
+            'decreases': 'len(bgp) + (0 if end else 1)',
+            'modifies': ['nops', 'next_pos'],
+        }
+    },
+    # truncated value / missing end-of-list / undefined width: refused, never a shorter list
+    raises=[{'exc': 'Notify', 'args': '(3, 10)'}],
+    ensures=[
+        # what is left is the suffix of the same payload after at least one complete (operator, value) pair
+        'subview(result, bgp0) and voff(result) + len(result) == voff(bgp0) + len(bgp0)',
+        'voff(result) >= voff(bgp0) + 2',
+        'nops >= 1',
+    ],
+    result_value=_po_result,
+    effect=lambda it, cfr, fr: cfr.locs['rules'].items.append((it.ctx.fresh('rule!key'), 1)) if hasattr(cfr.locs['rules'], 'items') else None,
+    canaries=[
+        ('value_bytes, bgp = bytes(bgp[:length]), bgp[length:]', 'value_bytes, bgp = bytes(bgp[:length]), bgp[length + 1:]'),
+        ('if len(value_bytes) != length:', 'if len(value_bytes) > length:'),
+        ('byte, bgp = bgp[0], bgp[1:]', 'byte, bgp = bgp[0], bgp[0:]'),
+    ],
+)
+REG.mark_inline(FL, 'CommonOperator.eol', 'CommonOperator.operator', 'CommonOperator.length')
+
+
+def _make_prefix(it, args, kwargs, fr, node):
+    """klass.make(bgp) for a prefix component: consumes mask (+ offset for IPv6) + ceil(mask/8) bytes, or fails
+    (assumed contract; IPrefix4.make / IPrefix6.make and CIDR decoding are verified under C15/C02)"""
+    from pyvc.interp import Raise
+
+    ctx = it.ctx
+    b = args[0].pieces[0] if args[0].pieces else None
+    which = ctx.fresh('make!outcome')
+    ctx.assume(z3.And(which >= 0, which <= 2))
+    if b is None or ctx.branch(which == 1):
+        raise Raise(VExc(IndexError, ('truncated prefix',)))
+    if ctx.branch(which == 2):
+        raise Raise(VExc(ValueError, ('bad mask',)))
+    k = ctx.fresh('prefix!consumed')
+    ctx.assume(z3.And(k >= 1, k <= to_z3(b.len)))
+    rest = VBytes([Piece('view', b.a, simp(b.off + k), simp(b.len - k))], args[0].kind)
+    return VTuple([VObj(None, {'ID': ctx.fresh('prefix.ID')}, 'prefix'), rest])
+
+
+contract(
+    FL,
+    'Flow._parse_rules',
+    props=('C16', 'C03'),
+    params={'self': obj(FLOW, _packed=bytes_(0, 4095), safi=int_(133, 134), afi=int_(1, 2))},
+    callees={'klass.make': _make_prefix, 'rules.setdefault(adding.ID, []).append': lambda it, a, k, fr, n: (fr.lookup('rules').items.append((it.ctx.fresh('rule!key'), 1)) if hasattr(fr.lookup('rules'), 'items') else None)},
+    lets={'packed0': 'self._packed'},
+    loops={0: {'subviews': {'bgp': 'packed0'}, 'inv': ['voff(bgp) + len(bgp) == voff(packed0) + len(packed0)'], 'decreases': 'len(bgp)'}},
+    raises=[{'exc': 'Notify', 'args': '(3, 10)'}],
+    escapes=['ValueError'],
+    ensures=[
+        # a rule is delivered only when the WHOLE payload was walked: an undefined component or a truncated value can
+        # never leave a shorter, broader rule behind
+        'len(bgp) == 0',
+    ],
+    notes=['ValueError from a prefix component is converted to INVALID by the caller (Flow.unpack_nlri)'],
+    canaries=[
+        ("raise Notify(3, 10, 'flow component %d is not one this family defines' % what)", 'break'),
+        ('what, bgp = bgp[0], bgp[1:]', 'what, bgp = bgp[0], bgp[0:]'),
+    ],
+)
